@@ -53,6 +53,7 @@ def h_injective(params, vals, ctx):
     """Two different bytes never decode to the same character (bijection)."""
     a, b = vals["X"], vals["Y"]
     require(0 <= a < 256 and 0 <= b < 256 and a != b)
+    require(a // 16 == params["shard"])
     a, b = concretize(a), concretize(b)
     return bytes([a]).decode("bk") != bytes([b]).decode("bk")
 
@@ -149,7 +150,8 @@ def obligations(tier, seed):
            vars={"C": "int"}, timeout=900, per_path=120, pre="every code point (no surrogates)"),
     ]
     if tier == "thorough":
-        obs.append(Ob(oid="byte/injective", harness=P + "h_injective", params={}, vars={"X": "int", "Y": "int"}, timeout=3000))
+        for shard in range(16):
+            obs.append(Ob(oid=f"byte/injective/{shard}", harness=P + "h_injective", params={"shard": shard}, vars={"X": "int", "Y": "int"}, timeout=3000, twin=(shard == 0)))
     win = [(0x20, 0x80), (0xA0, 0x100), (0x400, 0x460), (0x2500, 0x2520), (0x2660, 0x2668)]
     for fixed, nm in (("A", "enc"), ("é", "unenc"), ("ю", "cyr")):
         for pos in (0, 1):
